@@ -14,7 +14,7 @@
              S  a caller of Scheduler.Signal (stop request, later the KILL escalation)
              the environment: child processes exit, the context deadline fires.
    Line numbers refer to the hooked source.                                              *)
-EXTENDS Props_Sched, TLC
+EXTENDS Props_Retry, TLC
 
 CONSTANTS N,          \* steps are 1..N in file (= scan) order
           Configs     \* set of run configurations explored (records, see Init)
@@ -349,6 +349,9 @@ C04_NoRunningLeft == Returned => \A s \in Steps : status[s] # RUN
 C05_KillReaches  == spc = "done" => \A s \in Steps : alive[s] /\ ~cfg.repeat[s] => sigd[s] = "kill"
 \* when the TERM round is over, every process that was alive when the stop was accepted and still is has been signalled
 C05_TermReaches  == spc = "between" => \A s \in Steps : alive[s] /\ ~cfg.repeat[s] /\ ~pastCreate[s] => sigd[s] # "none"
+
+\* C10: whatever instant a run is cut at, its status vector is one the retry rules are defined for
+C10_ReachableConsistent == Consistent(cfg.deps, cfg.contF, cfg.contS, status)
 
 Ends     == <>Returned
 StopEnds == (spc = "signal.flagged") ~> Returned
